@@ -141,3 +141,21 @@ Example C04_nack_nack_ack :
   next s = 3 /\ map (fun c => c_st (copies s c)) [0; 1; 2] = [Nacked; Nacked; Acked]
   /\ Sub.thr s 0 = Sub.SDone 7 /\ outstanding s = [].
 Proof. vm_compute. repeat split; reflexivity. Qed.
+
+(** ** Round "proofs": the content / context / topic acceptor *)
+From WM Require GoChannel.MonitorContent.
+
+(** the acceptor [Monitor.mon_content] (delivered copy equals the published message, its context
+    is live and derived, the subscription belongs to the message's topic) accepts every history
+    of the model - Publish / Subscribe calls followed by the behaviour of subscription x with the
+    ARecv context flag computed from the state - provided every publication a Sender is spawned
+    for on x was published to x's topic (the registry layer: [C04_no_other_topic]).  A copy
+    received with a dead context only occurs on a cancelled subscription, which is exactly what
+    the acceptor exempts. *)
+Theorem C04_content_acceptor_sound : forall cap0 fx calls x k ls,
+  (forall p, In p (MonitorSound.spawn_pubs ls) ->
+             Monitor.assoc (MonitorContent.pubtab calls) p = Some k) ->
+  Monitor.mon_content (MonitorContent.prefix calls x k
+                       ++ MonitorContent.trace_ctx x (sinit cap0 fx) ls) = [].
+Proof. exact MonitorContent.content_sound. Qed.
+Print Assumptions C04_content_acceptor_sound.
